@@ -582,6 +582,8 @@ def analyse(run):
                 A.lsn.append(l)
                 open_lsn[e[1]] = l
             elif e[0] == "lsn-return":
+                if e[1] in open_lsn:
+                    open_lsn[e[1]]["ret"] = t
                 open_lsn.pop(e[1], None)
     # arrival = reader's manager-lock chunk, in wire order
     rl = [t for t, ch in enumerate(run.chunks) if ch["tid"] == "R" and ch["op"][0] == "lock" and ch["op"][1] == "mgr"]
@@ -771,18 +773,26 @@ def oracle_c03(run, A, V):
         # (A call submitted by ANOTHER thread shortly before unsubscribe() begins may read after it: then nothing is
         # required — the submission races with the unsubscription; calls made by the subscribing worker from inside
         # subscribe() always read inside the window.)
-        must = None
-        rd = l["read"]
-        for c in sub_windows.get(item, []):
-            if rd is None or rd < c["begin"]:
-                continue
-            if c["end"] is None or rd <= c["end"]:
-                must = c["rid"]
-            elif c["out"] == "ok":
-                nxt = [u for u in A.calls if u["item"] == item and u["m"] == "usb" and u["begin"] > c["end"]]
-                later = [u for u in A.calls if u["item"] == item and u["m"] in ("sub", "snap") and u["begin"] > c["end"] and u["begin"] <= rd]
-                if (not nxt or rd < nxt[0]["begin"]) and not later:
+        def must_at(rd):
+            must = None
+            for c in sub_windows.get(item, []):
+                if rd is None or rd < c["begin"]:
+                    continue
+                if c["end"] is None or rd <= c["end"]:
                     must = c["rid"]
+                elif c["out"] == "ok":
+                    nxt = [u for u in A.calls if u["item"] == item and u["m"] == "usb" and u["begin"] > c["end"]]
+                    later = [u for u in A.calls if u["item"] == item and u["m"] in ("sub", "snap") and u["begin"] > c["end"] and u["begin"] <= rd]
+                    if (not nxt or rd < nxt[0]["begin"]) and not later:
+                        must = c["rid"]
+            return must
+        if l["read"] is None and l.get("ret") is not None:
+            # the call returned without ever reading the item's state: whenever it would have read, between the call and
+            # its return, the same forwarding window was open — so the event had to be forwarded
+            a, b = must_at(t), must_at(l["ret"])
+            must = a if a == b else None
+        else:
+            must = must_at(l["read"])
         if must is not None and got != must:
             V("event-lost", "event for %s submitted at t=%d inside the subscription %s was %s" % (item, t, must, "dropped" if got is None else "tagged " + str(got)))
         # must drop: never subscribed, or unsubscription fully processed
